@@ -440,6 +440,26 @@ func registerIntercepts(g *Engine) {
 	// verifQuiesce: (explore mode) the calling thread waits until no other
 	// thread can run any more; returns how many other threads have not
 	// finished (blocked for ever = leaked). The goroutine census of C08.
+	// verifLetOthersRun: like verifQuiesce without the census (no observation):
+	// the caller waits until no other thread can run any more.
+	ic["verif:verifLetOthersRun"] = func(e *Exec, fn *ssa.Function, a []Value) Value {
+		if !e.exploring() || e.curThread == nil {
+			if e.curCoro == nil {
+				e.schedule()
+			}
+			return nil
+		}
+		me := e.curThread
+		e.blockUntil(func() bool {
+			for _, t := range e.threads {
+				if t != me && (t.status == tRunnable || (t.status == tBlocked && t.ready != nil && t.ready())) {
+					return false
+				}
+			}
+			return true
+		}, "verifLetOthersRun")
+		return nil
+	}
 	ic["verif:verifQuiesce"] = func(e *Exec, fn *ssa.Function, a []Value) Value {
 		if !e.exploring() || e.curThread == nil {
 			return e.tb.Const(64, 0)
